@@ -15,7 +15,7 @@ RULE = (
 )
 REQUIRED = ["summary_checked", "linkage_deficiencies_checked", "weakly_reversible_true",
             "weakly_reversible_false", "deficiency_positive", "multi_linkage_networks",
-            "zero_complex_networks", "textbook_checked"]
+            "zero_complex_networks", "textbook_checked", "graph_tagged_by_bipartite_only", "graph_tagged_by_kind_only"]
 ASSUMPTIONS = [
     "per-class deficiency compared with the docstring definition n_l - 1 - s_l (exact rank of the class's reaction vectors)",
     "linkage-class list compared as a multiset (class order is not part of the statement)",
@@ -104,6 +104,13 @@ def check_network(ctx, net, tag="", via_graph=False, pinned=None):
         from synkit.CRN.Hypergraph.conversion import hypergraph_to_bipartite
         obj = hypergraph_to_bipartite(H, integer_ids=False)
         ctx.count("via_exported_graph")
+        # the documented graph conventions accept either tag: strip one of them on a rotating basis
+        mode = (len(net) + sum(len(a) + len(b) for _, a, b in net)) % 3
+        if mode:
+            drop = "bipartite" if mode == 1 else "kind"
+            for _, dd in obj.nodes(data=True):
+                dd.pop(drop, None)
+            ctx.count("graph_tagged_by_" + ("kind" if mode == 1 else "bipartite") + "_only")
     o = oracle(net)
     wit = {"net": net, "reactions": W.fmt_net(net), "via_graph": via_graph}
     if pinned is not None:
